@@ -1,5 +1,5 @@
 "C14 — a snippet alias expands exactly like its definition, and resolution ends"
-import re, sys
+import re, copy, sys
 from hypothesis import strategies as st
 from vlib import core, abbr_model as M, abbr_gen as G
 from vlib.core import guard
@@ -404,7 +404,73 @@ def check_text_over_text(case, rec):
         rec.fail('alias-text-misplaced', 'syntax %s key %r (= %r): %r shows the alias text %d times' % (case['syntax'], key, declared_table(case['syntax'])[key], out, out.count('zztxt')))
 
 
-CHECKS = {'alias': check_alias, 'multi': check_multi, 'table': check_table, 'text-over-text': check_text_over_text}
+def chain_ending_in_text(s):
+    "definition is one chain `a>b>…` (only `>` at top level, no repeater) whose last item ends in a text `{…}`"
+    if not s.endswith('}') or s.endswith('\\}'):
+        return False
+    d = {'[': 0, '{': 0}
+    q = None
+    i = 0
+    while i < len(s):
+        c = s[i]
+        if q:
+            if c == q:
+                q = None
+        elif c == '\\':
+            i += 1
+        elif c in '"\'' and d['['] and not d['{']:
+            q = c
+        elif c == '[' and not d['{']:
+            d['['] += 1
+        elif c == ']' and not d['{']:
+            d['['] -= 1
+        elif c == '{':
+            d['{'] += 1
+        elif c == '}':
+            d['{'] -= 1
+        elif not d['['] and not d['{'] and c in '+^()*/':
+            return False
+        i += 1
+    return True
+
+
+CHAIN_SUFFIXES = ['>zp', '>zp+zq', '>zp>zq', '>zp{t}+zq']
+
+
+def check_chain_children(case, rec):
+    """definition = a chain whose deepest last item is (or ends in) a text, possibly with a field: children written on the alias go where they go when
+    the definition is written in place — `key>zp+zq` == `definition>zp+zq`, alone and below a parent, formatting off and on"""
+    key, syntax = case['key'], case['syntax']
+    user = case.get('user')
+    defn = (user or declared_table(syntax))[key]
+    rec.nontrivial(distinct=True)
+    for fmt in (False, True):
+        cfg = {'syntax': syntax, 'options': {'output.format': fmt}}
+        if user:
+            cfg['snippets'] = dict(user)
+        for suf in CHAIN_SUFFIXES:
+            for pre in ('', 'zd>'):
+                a, b = pre + key + suf, pre + defn + suf
+                rec.evals()
+                try:
+                    with guard():
+                        ra, rb = expand(a, copy.deepcopy(cfg)), expand(b, copy.deepcopy(cfg))
+                except Exception as e:
+                    rec.fail(core.exc_bucket(e), 'key %r: %s: %s' % (key, type(e).__name__, core.short(str(e), 150)))
+                    return
+                if 'zp' not in rb:
+                    rec.skip('in-place-definition-drops-children')
+                    continue
+                if ra != rb:
+                    rec.fail('alias-children-misplaced:text-chain', 'syntax %s, %r = %r, format %s\n %r → %r\n %r → %r' % (syntax, key, defn, fmt, a, ra, b, rb))
+                    return
+    rec.cls('text-chain-children')
+
+
+CHAIN_USER = ['%s%s' % (pre, last) for pre in ('', 'section>', 'section>p>', 'em>') for last in ('{T}', '{[ ${0} ]}', '{a ${1} b}', 'p{T}', 'p{x ${0} y}', '{${0}}', 'b{${1:ph}}')]
+
+
+CHECKS = {'chain-children': check_chain_children, 'alias': check_alias, 'multi': check_multi, 'table': check_table, 'text-over-text': check_text_over_text}
 
 
 def declared_table(syntax):
@@ -440,6 +506,8 @@ def builtin_cases():
                 yield 'alias', {'syntax': syntax, 'key': key, 'deco': [], 'reverse': False, 'variables': vs}
             if syntax == 'pug' and key != '!!!':
                 continue
+            if chain_ending_in_text(defn):
+                yield 'chain-children', {'syntax': syntax, 'key': key}
             if top_level_ops(defn):
                 yield 'multi', {'syntax': syntax, 'key': key}
                 continue
@@ -465,6 +533,10 @@ def builtin_cases():
 def shard_builtin(ctx, shard, nshards):
     for kind, case in core.sharded(builtin_cases(), shard, nshards):
         ctx.rec.run_case(CHECKS, kind, case)
+    for i, d in enumerate(CHAIN_USER):
+        if i % nshards == shard:
+            for syntax in ('html', 'xml'):
+                ctx.rec.run_case(CHECKS, 'chain-children', {'syntax': syntax, 'key': 'zw', 'user': {'zw': d}})
 
 
 KEYS = ['s1', 's2', 's3', 's4', 's5', 's6']
